@@ -96,8 +96,11 @@ def class_specs(draw, name, earlier, allow_hooks=True):
         n = draw(st.integers(1, 3))
         ms = draw(st.permutations(ENUM_MEMBERS))[:n]
         c['members'] = list(ms)
+        c['mix'] = draw(st.sampled_from([None, None, None, 'int', 'str']))
         if allow_hooks and draw(st.integers(0, 5)) == 0:
             c['sav'] = 'lower'
+        if allow_hooks and draw(st.integers(0, 3)) == 0:
+            c['swe'] = 'upper'
         return c
     if kind in ('ustr', 'ystr'):
         c['validate'] = draw(st.sampled_from([None, None, 'alpha']))
